@@ -403,3 +403,15 @@ def c16_temp_left_after_error(case, rr):
         return False
     routes = obs.get("routes") or {}
     return any(val is None for val in routes.values())
+
+
+@matcher
+def kinds_on_doc(case, rr, allowed=None, doc_regex=None):
+    """every violation is of an allowed kind and the document has the stated shape"""
+    import re
+
+    obs = rr.get("observed") or {}
+    v = obs.get("violations") or []
+    if not v or any(x["kind"] not in allowed for x in v):
+        return False
+    return bool(re.search(doc_regex, obs.get("doc") or "", re.S))
